@@ -41,7 +41,7 @@ SubstG(g, ren) ==
   CASE g[1] \in {"eq", "neq", "ltefd", "ltfd", "neqfd"} -> <<g[1], SubstT(g[2], ren), SubstT(g[3], ren)>>
     [] g[1] \in {"plusfd", "minusfd", "timesfd", "plusz", "timesz"} ->
          <<g[1], SubstT(g[2], ren), SubstT(g[3], ren), SubstT(g[4], ren)>>
-    [] g[1] \in {"distinctfd", "show", "isnum"} -> <<g[1], SubstT(g[2], ren)>>
+    [] g[1] \in {"distinctfd", "show", "isnum", "isground"} -> <<g[1], SubstT(g[2], ren)>>
     [] g[1] = "dom" -> <<"dom", SubstT(g[2], ren), g[3]>>
     [] g[1] \in {"conj", "disj", "closure"} -> <<g[1], SubstGs(g[2], ren)>>
     [] g[1] \in {"rawconj", "rawdisj"} -> <<g[1], SubstG(g[2], ren), SubstG(g[3], ren)>>
